@@ -5,6 +5,7 @@ from vlib import Check, Rng
 
 PID = 'C11'
 THEOREMS = [
+    'Lcdb.TableProps.altered_table_partial', 'Lcdb.TableProps.single_byte_alteration_detected', 'Lcdb.TableProps.single_byte_scan', 'Lcdb.TableProps.readBlock_ok_crc',
     'Lcdb.crc_detects_single_byte', 'Lcdb.crcBit_injective', 'Lcdb.crcFeed_injective', 'Lcdb.crcMask_injective', 'Lcdb.mask_unmask',
     'Lcdb.footer_padding_irrelevant', 'Lcdb.footerRead_some_iff_magic', 'Lcdb.C15.read_sound', 'Lcdb.C04.iterate_count', 'Lcdb.C04.prefix_rejected',
     'Lcdb.CrcTablesOk.byteExtTable_ok',
@@ -21,17 +22,24 @@ def run(tier):
     big = tier == 'thorough'
     import C15
     cases = [c for c in C15.gen('quick' if not big else 'thorough', rng.fork('log')) if c.suite == 'log-alter']
-    try:
-        import gens_table
-        if hasattr(gens_table, 'gen_table_mut'):
-            cases += gens_table.gen_table_mut(rng.fork('tmut'), 400 if not big else 20000)
-    except ImportError:
-        pass
+    import gens_table
+    tcases = gens_table.gen_table_mut(rng.fork('tmut'), 500 if not big else 20000)
+    # deterministic witness of the listed footer finding (so that its KNOWN-FINDING line appears on every run)
+    def tf1_oracle(resp):
+        return 'C11: a scan of the altered table finished OK but returned no entries (the original holds 3)' if resp.endswith(' . ok') else None
+    tcases.append(Case('table-mut-footer', 'tmut bs=64,ri=21,comp=0,fb=0,cmp=rev 61ff6262620000000000000000=-;6100ffffffffffffff=-;01257c0000000000=c2ef s:92:66,s:93:21,s:94:53,s:95:8 1 1 scan', oracle=tf1_oracle))
     # C11 asks only that damage never yields a record that was not written; whether the drop is reported is C15's business
     for c in cases:
         if c.oracle is not None:
             c.oracle = (lambda orc: (lambda resp: (lambda w: None if (w or '').startswith('SILENT') else w)(orc(resp))))(c.oracle)
     run_cases(chk, cases, unit)
+    listed = [f for f in vlib.load_findings().get('known', []) if f.get('property') == PID and f.get('signature') == 'T-F1']
+
+    def table_known(case, resp, why):
+        if listed and case.suite == 'table-mut-footer' and why and 'C11' in why:
+            return listed[0]['text']
+        return None
+    run_cases(chk, tcases, unit, known=table_known)
     chk.rules.append('WAL alterations (bit flips, 0x00/0xFF, zeroed sectors) through the real log reader: never a record that was not written; whole databases (several tables of several '
                      'blocks, optional compression and filters, data left in the log) copied and damaged in one file -- table files at positions spread over the whole file (bit flips, byte set '
                      'to 0x00/0xFF, truncation, zero-filled 512 B sector), logs, MANIFEST, CURRENT -- then opened with paranoid checks, every key looked up with checksum verification and scanned in '
